@@ -16,12 +16,16 @@
   * `afHop_common`, `afCollapse_spec`, `afStep_rho`, `pureState_valid`   whole A-FSSH step: with a collapse ρ is the (valid) pure
                          state of the label active AFTER the step's hop attempt and both moments vanish; otherwise ρ' = expStep ρ  (C11, C02)
 
+  * `shiftDiag_hermitian`, `afStep_hermitian`, `afRun_hermitian`, `initial_moments_hermitian`   both moment tensors and ρ stay Hermitian
+                         along a whole A-FSSH run with hops (`hop_update`) and collapses, for any eigh results, dt, thresholds   (C11)
+
   The tie to the code is the whole-run correspondence (`harness/runcommon.py`, op `shrun`): the real TrajectorySH is run,
   what it reads from outside at each step is recorded, and the model has to reproduce every snapshot and every event.
 -/
 import MudProof.Properties.C01
 import MudProof.Properties.C03
 import MudProof.Properties.C02
+import MudProof.Properties.C11
 import MudModel.Step
 import MudModel.AStep
 namespace Mud.StepThm
@@ -284,5 +288,100 @@ theorem pureState_valid (k : Fin N) :
     split <;> apply Complex.ext <;> simp
   rw [e]
   exact hp
+
+/-! ### C11 at full strength: Hermiticity of the moments along whole A-FSSH runs -/
+
+/-- `hop_update` on a Hermitian moment matrix gives a Hermitian matrix (real diagonal shifted by a real number,
+    off-diagonals untouched) -/
+theorem shiftDiag_hermitian (T : Tab (Cx ℝ) N N) (t : Fin N) (hT : (toM T).IsHermitian) :
+    (toM (shiftDiag T t)).IsHermitian := by
+  ext i j
+  have hij := congrFun (congrFun hT.eq i) j
+  simp only [conjTranspose_apply, toM_apply] at hij
+  simp only [conjTranspose_apply, toM_apply, shiftDiag, Tab.get_ofFn, hopUpdate]
+  by_cases h : i = j
+  · subst h
+    have hii := congrFun (congrFun hT.eq i) i
+    have htt := congrFun (congrFun hT.eq t) t
+    simp only [conjTranspose_apply, toM_apply] at hii htt
+    simp only [if_true, toC_sub, star_sub, hii, htt]
+  · have h' : ¬ j = i := fun e => h e.symm
+    simp only [h, h', if_false]
+    exact hij
+
+theorem zeroMoment_hermitian : (toM (zeroMoment (α := ℝ) (N := N))).IsHermitian := by
+  ext i j
+  simp only [conjTranspose_apply, toM_apply, zeroMoment, Tab.get_ofFn]
+  apply Complex.ext <;> simp
+
+/-- the invariant of an A-FSSH trajectory that C11 is about -/
+structure MomentsHermitian (a : AF ℝ N n) : Prop where
+  rho : (toM a.s.rho).IsHermitian
+  delR : ∀ x, (toM (a.delR.get x)).IsHermitian
+  delP : ∀ x, (toM (a.delP.get x)).IsHermitian
+
+/-- **one whole A-FSSH step preserves Hermiticity of both moment tensors and of ρ**, whatever happens in it (no hop,
+    frustrated hop, accepted hop with `hop_update`, collapse), for any `eigh` results, any `dt`, any thresholds — provided the
+    force matrix of the new electronics is symmetric in the state indices (which C05 proves for the models) -/
+theorem afStep_hermitian (m : Fin n → ℝ) (dt : ℝ) (ePrev eLast : ElecA ℝ N n) (inp : AStepIn ℝ N n) (a : AF ℝ N n)
+    (hfm : ∀ i j x, inp.elec.fm i j x = inp.elec.fm j i x) (h : MomentsHermitian a) :
+    MomentsHermitian (afStep m dt ePrev eLast inp a).1 := by
+  -- the moments right after the two propagation calls
+  have hR1 : ∀ x, (toM (delRexp inp.epsR inp.coR dt (m x) (a.delR.get x) (a.delP.get x))).IsHermitian :=
+    fun x => C11.delR_exp_hermitian _ _ _ _ _ _ (h.delR x) (h.delP x)
+  have hP1 : ∀ x, (toM (delPexp inp.epsP inp.coP dt (a.delP.get x)
+      (delF (Tab.ofFn (fun i j => inp.elec.fm i j x)) (inp.elec.e.force a.s.state x)) a.s.rho)).IsHermitian := by
+    intro x
+    apply C11.delP_exp_hermitian _ _ _ _ _ _ (h.delP x) h.rho
+    intro i j
+    simp only [delF, Tab.get_ofFn]
+    by_cases hij : i = j
+    · subst hij; rfl
+    · have : ¬ j = i := fun e => hij e.symm
+      simp [hij, this, hfm i j x]
+  have hrho1 : (toM (expStep inp.diags inp.coeff dt a.s.rho)).IsHermitian := by
+    rw [C02.expStep_eq]
+    exact C02.conj_hermitian _ _ h.rho
+  -- after the hop part
+  have hhop : MomentsHermitian (afHop m dt ePrev eLast inp a).1 := by
+    simp only [afHop]
+    split
+    · exact ⟨hrho1, fun x => by simpa using hR1 x, fun x => by simpa using hP1 x⟩
+    · split
+      · split
+        · refine ⟨hrho1, fun x => ?_, fun x => ?_⟩
+          · simp only [Vec.get_ofFn]; exact shiftDiag_hermitian _ _ (hR1 x)
+          · simp only [Vec.get_ofFn]; exact shiftDiag_hermitian _ _ (hP1 x)
+        · exact ⟨hrho1, fun x => by simpa using hR1 x, fun x => by simpa using hP1 x⟩
+      · exact ⟨hrho1, fun x => by simpa using hR1 x, fun x => by simpa using hP1 x⟩
+  -- after the collapse part
+  have hc := afCollapse_spec dt inp (afHop m dt ePrev eLast inp a).1
+  simp only [afStep]
+  by_cases he : (afCollapse dt inp (afHop m dt ePrev eLast inp a).1).2 = []
+  · rw [hc.2.1 he]; exact hhop
+  · obtain ⟨h1, h2, h3⟩ := hc.1 he
+    refine ⟨?_, fun x => ?_, fun x => ?_⟩
+    · rw [h1]; exact (pureState_valid _).2.1
+    · rw [h2 x]; exact zeroMoment_hermitian
+    · rw [h3 x]; exact zeroMoment_hermitian
+
+/-- **along a whole A-FSSH run** (any number of steps, hops and collapses included) both moment tensors and ρ stay Hermitian -/
+theorem afRun_hermitian (m : Fin n → ℝ) (dt : ℝ) (ePrev eLast : ElecA ℝ N n) (a : AF ℝ N n) (inps : List (AStepIn ℝ N n))
+    (hfm : ∀ inp ∈ inps, ∀ i j x, inp.elec.fm i j x = inp.elec.fm j i x) (h : MomentsHermitian a) :
+    ∀ r ∈ afRun m dt ePrev eLast a inps, MomentsHermitian r.1 := by
+  induction inps generalizing ePrev eLast a with
+  | nil => intro r hr; simp [afRun] at hr
+  | cons inp rest ih =>
+    intro r hr
+    have h1 := afStep_hermitian m dt ePrev eLast inp a (hfm inp List.mem_cons_self) h
+    simp only [afRun, List.mem_cons] at hr
+    rcases hr with hr | hr
+    · subst hr; exact h1
+    · exact ih eLast inp.elec _ (fun i hi => hfm i (List.mem_cons_of_mem _ hi)) h1 r hr
+
+/-- the run starts in the invariant: zero moments (`__init__`) and a Hermitian ρ -/
+theorem initial_moments_hermitian (s : SH ℝ N n) (hρ : (toM s.rho).IsHermitian) :
+    MomentsHermitian (⟨s, Vec.ofFn (fun _ => zeroMoment), Vec.ofFn (fun _ => zeroMoment)⟩ : AF ℝ N n) :=
+  ⟨hρ, fun x => by simpa using zeroMoment_hermitian, fun x => by simpa using zeroMoment_hermitian⟩
 
 end Mud.StepThm
